@@ -342,6 +342,12 @@ def handler : Handler := fun op j =>
     let c ← (fStr? j "cls").bind optClass?
     let sv ← (fStr? j "solver").bind admmSolver?
     some (ok (jArr ((fieldNames c sv (← fBool? j "obj")).map jS)))
+  | "srctables" =>
+    -- the model's transcription tables (for the targeted failing-input search after a broken generated obligation)
+    some (ok (jObj [
+      ("skeletons", jArr (sourceSkeletons.map (fun p => jArr [jS p.1, jArr (p.2.map (fun l => jArr [jN l.1, jS l.2]))]))),
+      ("signatures", jArr (sourceSignatures.map (fun p => jArr [jS p.1, jArr (p.2.map (fun q => jArr [jS q.1, jS q.2]))]))),
+      ("options", jArr (optionDefaults.map (fun p => jS p.1)))]))
   | "objeval" => do
     let c ← (fStr? j "cls").bind optClass?
     let gs ← (field? j "gs").bind (getListOf? getBool?)
